@@ -31,6 +31,7 @@ type Facts struct {
 	GlobalWrites   []GWrite            `json:"globalWrites"`   // every syntactic write / address-taking / method call on a package-level var, with the enclosing function
 	GlobalRefs     []GRef              `json:"globalRefs"`     // number of identifier occurrences of each package-level var per function (reads and writes)
 	Inits          []string            `json:"inits"`          // init functions and package-level initialisers that call functions: "file:func"
+	AtlasLits      []AtlasLit          `json:"atlasLits"`      // format strings of the Atlas requests / file names and the request header literals (atlas.go, main.go)
 	Validation     []RejectRule        `json:"validation"`     // the argument-validation chain of the redact Run closure, symbolically executed: ordered reject conditions
 	ValidationUnk  []string            `json:"validationUnknown"` // constructs of the chain the translator could not express (a translator failure)
 	Missing        []string            `json:"missing"`
@@ -67,6 +68,12 @@ type Use struct {
 type FlagDef struct {
 	Name, Short, Var, Kind string
 }
+type AtlasLit struct {
+	Kind string `json:"kind"` // sprintf | header | createTemp
+	Func string `json:"func"`
+	Text string `json:"text"`
+}
+
 // BX is a boolean expression over the presence atoms of the command line.
 type BX struct {
 	Op   string `json:"op"` // atom | not | and | or | true | false
@@ -457,6 +464,7 @@ func main() {
 		walk(runLit.Body.List, 0)
 		validationChain(runLit, &facts)
 	}
+	atlasLiterals(files, &facts)
 
 	for _, nm := range []string{"RedactMongoLog", "redactCommand", "redactOperation", "redactNamespace", "redactNamespaceFields", "redactPipelineStage", "redactQueryValues", "redactArrayValuesWithKey", "redactScalarValue",
 		"redactString", "getOp", "traverseMapPath", "augmentOp", "HashName", "IsEmail", "ParsePlanSummary", "redactFieldNamesFromPlanSummary", "UnmarshalOrdered", "parseValue",
@@ -886,5 +894,58 @@ func validationChain(runLit *ast.FuncLit, facts *Facts) {
 	e.exec(runLit.Body.List, &BX{Op: "true"})
 	if len(facts.Validation) == 0 {
 		facts.Missing = append(facts.Missing, "validation chain of the redact Run closure")
+	}
+}
+
+
+// format strings and header literals that shape the Atlas requests and the per-host file names
+func atlasLiterals(files []*ast.File, facts *Facts) {
+	for _, f := range files {
+		base := filepath.Base(fset.Position(f.Pos()).Filename)
+		if base != "atlas.go" && base != "main.go" {
+			continue
+		}
+		for _, d := range f.Decls {
+			fd, ok := d.(*ast.FuncDecl)
+			if !ok || fd.Body == nil {
+				continue
+			}
+			ast.Inspect(fd.Body, func(x ast.Node) bool {
+				c, ok := x.(*ast.CallExpr)
+				if !ok {
+					return true
+				}
+				nm := callName(c)
+				if sel, ok := c.Fun.(*ast.SelectorExpr); ok && (sel.Sel.Name == "Set" || sel.Sel.Name == "Add") {
+					if inner, ok := sel.X.(*ast.SelectorExpr); ok && inner.Sel.Name == "Header" {
+						nm = "Header." + sel.Sel.Name
+					}
+				}
+				if sel, ok := c.Fun.(*ast.SelectorExpr); ok && sel.Sel.Name == "SetBasicAuth" {
+					nm = "x.SetBasicAuth"
+				}
+				switch {
+				case nm == "fmt.Sprintf" && len(c.Args) > 0:
+					if lit, ok := strLit(c.Args[0]); ok && (strings.Contains(lit, "/api/atlas") || strings.Contains(lit, ".log.gz") || lit == "%s.%d") {
+						facts.AtlasLits = append(facts.AtlasLits, AtlasLit{Kind: "sprintf", Func: fd.Name.Name, Text: lit})
+					}
+				case strings.HasSuffix(nm, "Header.Set") || strings.HasSuffix(nm, "Header.Add"):
+					if len(c.Args) == 2 {
+						k, ok1 := strLit(c.Args[0])
+						v, ok2 := strLit(c.Args[1])
+						if ok1 && ok2 {
+							facts.AtlasLits = append(facts.AtlasLits, AtlasLit{Kind: "header", Func: fd.Name.Name, Text: k + ": " + v})
+						} else {
+							var sb strings.Builder
+							printer.Fprint(&sb, fset, c)
+							facts.AtlasLits = append(facts.AtlasLits, AtlasLit{Kind: "header-dynamic", Func: fd.Name.Name, Text: sb.String()})
+						}
+					}
+				case nm == "req.SetBasicAuth" || strings.HasSuffix(nm, ".SetBasicAuth"):
+					facts.AtlasLits = append(facts.AtlasLits, AtlasLit{Kind: "basic-auth", Func: fd.Name.Name, Text: nm})
+				}
+				return true
+			})
+		}
 	}
 }
